@@ -158,7 +158,7 @@ func (e c18SliceErr) Error() string { return fmt.Sprint("slice error ", len(e)) 
 var c18HandlerErrors = []error{nil, errHandler, errNestedShape, errWrappedShape, (*c18PtrErr)(nil), c18SliceErr(nil), &c18PtrErr{"pointer error"}}
 
 func runC18(c *wk.Ctx) {
-	c.Meta("rule", "exhaustive matrix: handler parameter lists of length 0..3 over 13 native types (incl. a named string type, a list of it, a map of lists and two schemas sharing int64) x 11 result shapes (none, value, error, value+error, extra results, non-error last, a non-error type NAMED error, an interface named error, error first) x declared inputs {exact, one type swapped, one dropped, one added} x declared output {nil, matching, other} x error flag, for NewCallableFunction; the dynamic constructor over the same handlers; every accepted function is called with 0..4 arguments, with nil and non-nil handler errors (incl. typed-nil pointer and nil-slice error values); variadic handlers as an extra column. distinct = hash of (handler signature, declaration); all cases non-trivial")
+	c.Meta("rule", "exhaustive matrix: handler parameter lists of length 0..3 over 13 native types (incl. a named string type, a list of it, a map of lists and two schemas sharing int64) x 11 result shapes (none, value, error, value+error, extra results, non-error last, a non-error type NAMED error, an interface named error, error first) x declared inputs {exact, one type swapped, one dropped, one added} x declared output {nil, matching, other} x error flag, for NewCallableFunction; the dynamic constructor over the same handlers; every accepted function is called with 0..4 arguments, with nil and non-nil handler errors (incl. typed-nil pointer and nil-slice error values); variadic handlers as an extra column. distinct = hash of (handler signature, declaration); all cases non-trivial Re-entrant calls: handlers that call their own function (static, dynamic), each other, or another function.")
 	c.Meta("assumptions", []string{"handlers are synthesised with reflect.MakeFunc, so only signatures (not bodies) vary", "non-func / nil handlers and wrongly typed call arguments are outside the property's quantifier"})
 	c.Meta("exhaustive", true)
 	c.Floor("constructor_calls", 10000)
